@@ -67,7 +67,9 @@ OPTION = "core::option::Option"
 RESULT = "core::result::Result"
 CFLOW = "core::ops::control_flow::ControlFlow"
 PARSED = "flussab::parser::Parsed"
-SHAPE_ADTS = (OPTION, RESULT, CFLOW, PARSED)
+# enums / structs whose shape is tracked (frozen table; everything else is an opaque value)
+SHAPE_ADTS = (OPTION, RESULT, CFLOW, PARSED, "flussab_btor2::btor2::Line")
+TRACK_STRUCTS = ("flussab_btor2::btor2::Node",)
 
 
 def opt_look():
@@ -99,6 +101,8 @@ def show(av):
         return "&_%d%s" % (av[1], "".join("." + str(s[-1]) for s in av[2]))
     if k == "clo":
         return "closure"
+    if k == "s":
+        return "{" + ",".join(show(a) for a in av[2]) + "}"
     return k
 
 
@@ -293,7 +297,7 @@ class Engine:
                 return TOP
             if k in ("t",) and st[1] < len(av[1]):
                 return av[1][st[1]]
-            if k == "clo" and st[1] < len(av[2]):
+            if k in ("clo", "s") and st[1] < len(av[2]):
                 return av[2][st[1]]
             return TOP
         return TOP
@@ -330,10 +334,10 @@ class Engine:
                 comps = list(av[1])
                 comps[st[1]] = self.update(comps[st[1]], path[1:], new)
                 return ("t", tuple(comps))
-            if k == "clo" and st[1] < len(av[2]):
+            if k in ("clo", "s") and st[1] < len(av[2]):
                 comps = list(av[2])
                 comps[st[1]] = self.update(comps[st[1]], path[1:], new)
-                return ("clo", av[1], tuple(comps))
+                return (k, av[1], tuple(comps))
             return av
         return av
 
@@ -360,8 +364,9 @@ class Engine:
                 if "@" in tag:
                     # a memoised look-ahead: later look-aheads at the same offset see the refined value
                     k = int(tag.split("@")[1])
-                    if -(k + 1) in env:
-                        env[-(k + 1)] = now
+                    mk = -k if k >= 1000 else -(k + 1)
+                    if mk in env:
+                        env[mk] = now
                     tag = tag.split("@")[0]
                 state = self.auto.event(state, ("narrow", tag, now), where)
         return env, state
@@ -551,6 +556,8 @@ class Engine:
                 return ("t", tuple(ops))
             if ak == "closure":
                 return ("clo", rv["closure"], tuple(ops))
+            if ak == "adt" and rv["adt"] in TRACK_STRUCTS:
+                return ("s", rv["adt"], tuple(ops))
             if ak == "adt":
                 vs = self.variants(rv["adt"]) if rv["adt"] in SHAPE_ADTS else None
                 if vs is not None:
@@ -614,7 +621,7 @@ class Engine:
     # ---- frame independent form ----------------------------------------------------------
     def freeze(self, env, av, depth=0):
         k = av[0]
-        if depth > 4:
+        if depth > 8:
             return TOP
         if k == "ref":
             return ("cell", self.freeze(env, self.read(env, av[1], av[2]), depth + 1))
@@ -626,8 +633,8 @@ class Engine:
             return ("e", av[1], frozenset((n, None if p is None else self.freeze(env, p, depth + 1)) for n, p in av[2]), av[3])
         if k == "t":
             return ("t", tuple(self.freeze(env, a, depth + 1) for a in av[1]))
-        if k == "clo":
-            return ("clo", av[1], tuple(self.freeze(env, a, depth + 1) for a in av[2]))
+        if k in ("clo", "s"):
+            return (k, av[1], tuple(self.freeze(env, a, depth + 1) for a in av[2]))
         if k == "cell":
             return ("cell", self.freeze(env, av[1], depth + 1))
         if k == "variant":
@@ -644,7 +651,7 @@ class Engine:
         elif k == "t":
             for a in av[1]:
                 self.mut_refs(a, out, depth + 1)
-        elif k == "clo":
+        elif k in ("clo", "s"):
             for a in av[2]:
                 self.mut_refs(a, out, depth + 1)
         elif k == "e":
@@ -694,6 +701,11 @@ class Engine:
             args = list(tup[1]) if tup[0] == "t" else [TOP]
             t = dict(t, args=[])
         n = norm(cdef)
+        if e is not None and "ctor_adt" in e:
+            adt = e["ctor_adt"]
+            if adt in SHAPE_ADTS and e.get("ctor_variant"):
+                return [(enum(adt, [(e["ctor_variant"], args[0] if args else None)], None), env, state)]
+            return [(TOP, env, state)]
         # 1. primitives and models
         h = PRIMS.get(n)
         if h is not None:
@@ -829,6 +841,8 @@ class Engine:
                     r = self.resolve(env, lhs)
                     if r is not None:
                         env = self.write(env, r[0], r[1], av)
+                        if -(1000 + r[0]) in env:
+                            del env[-(1000 + r[0])]
                 elif k == "dead":
                     if s["l"] in env:
                         env = dict(env)
@@ -992,6 +1006,21 @@ def _prim_event(name):
 def _prim_look(eng, fn, bb, t, env, state, args, where, n):
     off = args[1] if len(args) > 1 else ("i", 0)
     state = eng.auto.event(state, ("prim", "look", (args[0] if args else TOP, off)), where)
+    # memo keyed by the variable holding the offset (same variable, not reassigned, nothing consumed)
+    vkey = None
+    if off[0] != "i" and len(t.get("args", [])) > 1:
+        from .sym import sym as _sym
+        oe = _sym(fn).operand(t["args"][1])
+        if oe[0] == "l":
+            vkey = -(1000 + oe[1])
+    if vkey is not None:
+        if vkey in env:
+            state = eng.auto.event(state, ("narrow", "look", env[vkey]), where)
+            return [(env[vkey], env, state)]
+        av = enum(OPTION, [("None", None), ("Some", ("byte", ALL))], "look@%d" % (-vkey))
+        env = {l: v for l, v in env.items() if l >= 0}
+        env[vkey] = av
+        return [(av, env, state)]
     if off[0] == "i" and 0 <= off[1] < 64:
         key = -(off[1] + 1)
         if key in env:
